@@ -7,6 +7,8 @@ import JunoModel.C01.ModelLazy
 import JunoModel.C01.ModelVersion
 import JunoModel.C01.ModelStateL
 import JunoModel.C01.ModelChain
+import JunoModel.C01.ModelMigrate
+import JunoModel.C01.ModelLegacyState
 /-!
 Line-protocol driver for the C01 models (`lake build c01drv`).
 
@@ -55,6 +57,17 @@ Requests (one per line, answers one line each):
   cstore <id> <pre014> <old: prev|cur|bad> <new: ok|bad> item...   Blockchain.Store of the next block; the claimed OldRoot is
                                     the root stored for the head / the head state's commitment under THIS block's version /
                                     a wrong value, the claimed NewRoot right or wrong -> <root> <old> <new> | rejected
+  mnew <id> <legacyPurge 0|1>      fresh pair (legacy state of core/deprecatedstate, native state of core/state with the
+                                    contract records' cached storage roots and the storage-trie store, ModelMigrate.lean) -> ok
+  mblock <id> <pre014> item...      State.Update on the native state (and, before the migration, on the legacy one)
+                                    -> <root term> R:<addr>:<class>:<nonce>:<cached storage root>... | rejected
+                                    (the Contract bucket afterwards: live records sorted by address)
+  mmigrate <id>                     the head-state migration: the Contract bucket is rebuilt from the legacy fields by
+                                    state.WriteContract (no storage root); the tries stay              -> ok R:...
+  ynew <id> <purge 0|1>             fresh TRANSCRIBED legacy state (core/deprecatedstate.Update statement by statement:
+                                    per-field buckets, leaf recomputed after every single change, ModelLegacyState.lean) -> ok
+  yblock <id> <pre014> item...      State.Update + Commitment -> <root term> F:<addr>:<class>:<nonce|->... | rejected
+                                    (the ContractClassHash / ContractNonce buckets afterwards, sorted by address)
 Terms are printed in prefix form: f<hex> | P(a,b) | S(a,b) | T(a,b,c) | A(t,<hex>).
 -/
 open Juno.Proto Juno.C01
@@ -84,6 +97,8 @@ structure St where
   lazyL : List (Nat × (Nat × HashKind × LNode)) := []
   lstates : List (Nat × (Bool × StateL.StL)) := []
   chains : List (Nat × (Bool × Bool × State.St × HTerm)) := []
+  mstates : List (Nat × (Bool × Bool × State.St × StateM.StM)) := []   -- legacy purge, migrated?, legacy, native
+  ystates : List (Nat × (Bool × LState.LSt)) := []
 
 def pathStr (p : Path) : String := toString p.length ++ ":" ++ natToHex (pathNat p)
 
@@ -161,6 +176,75 @@ def parseKV (s : String) : Option (Nat × Nat) :=
   match s.splitOn ":" with
   | [a, b] => do let x ← hexToNat? a; let y ← hexToNat? b; pure (x, y)
   | _ => none
+
+def recsStr (recs : State.AList StateM.RecM) : String :=
+  let live := (StateM.liveRecs recs).toArray.qsort (fun a b => pathNat a.1 < pathNat b.1)
+  " ".intercalate (live.toList.map (fun e =>
+    "R:" ++ natToHex (pathNat e.1) ++ ":" ++ termStr e.2.cls ++ ":" ++ termStr e.2.nonce ++ ":" ++ termStr e.2.sroot))
+
+/-- requests of the migration model (`ModelMigrate.lean`) -/
+def stepM (s : St) (ws : List String) : St × String :=
+  match ws with
+  | ["mnew", id, lp] =>
+    match id.toNat?, lp.toNat? with
+    | some id, some lp =>
+      ({ s with mstates := (id, (lp != 0, false, State.St.empty, StateM.StM.empty)) :: s.mstates.filter (·.1 != id) }, "ok")
+    | _, _ => (s, "bad-op")
+  | "mblock" :: id :: pre :: items =>
+    match id.toNat?, preOf? pre with
+    | some id, some pre =>
+      match s.mstates.find? (·.1 == id) with
+      | some (_, (lp, migrated, legacy, native)) =>
+        match parseDiff items with
+        | some d =>
+          match StateM.update true native d with
+          | some native' =>
+            let legacy? := if migrated then some legacy else State.update lp legacy d
+            match legacy? with
+            | some legacy' =>
+              ({ s with mstates := (id, (lp, migrated, legacy', native')) :: s.mstates.filter (·.1 != id) },
+                (commitmentStr pre (Trie2.hashRoot .pedersen native'.ctrie).1 (Trie2.hashRoot .poseidon native'.cltrie).1
+                  ++ " " ++ recsStr native'.recs).trimAscii.toString)
+            | none => (s, "rejected-by-legacy")
+          | none => (s, "rejected")
+        | none => (s, "bad-op")
+      | none => (s, "bad-op")
+    | _, _ => (s, "bad-op")
+  | ["ynew", id, purge] =>
+    match id.toNat?, purge.toNat? with
+    | some id, some p =>
+      ({ s with ystates := (id, (p != 0, LState.LSt.empty)) :: s.ystates.filter (·.1 != id) }, "ok")
+    | _, _ => (s, "bad-op")
+  | "yblock" :: id :: pre :: items =>
+    match id.toNat?, preOf? pre with
+    | some id, some pre =>
+      match s.ystates.find? (·.1 == id) with
+      | some (_, (purge, st)) =>
+        match parseDiff items with
+        | some d =>
+          match LState.update purge st d with
+          | some st' =>
+            let fs := (LState.liveFields st').toArray.qsort (fun a b => pathNat a.1 < pathNat b.1)
+            let dump := " ".intercalate (fs.toList.map (fun e =>
+              "F:" ++ natToHex (pathNat e.1) ++ ":" ++ termStr e.2.1 ++ ":" ++ (match e.2.2 with | some n => termStr n | none => "-")))
+            ({ s with ystates := (id, (purge, st')) :: s.ystates.filter (·.1 != id) },
+              (commitmentStr pre (Trie2.hashRoot .pedersen st'.ctrie).1 (Trie2.hashRoot .poseidon st'.cltrie).1
+                ++ " " ++ dump).trimAscii.toString)
+          | none => (s, "rejected")
+        | none => (s, "bad-op")
+      | none => (s, "bad-op")
+    | _, _ => (s, "bad-op")
+  | ["mmigrate", id] =>
+    match id.toNat? with
+    | some id =>
+      match s.mstates.find? (·.1 == id) with
+      | some (_, (lp, _, legacy, native)) =>
+        let m := StateM.upgrade legacy native
+        ({ s with mstates := (id, (lp, true, legacy, m)) :: s.mstates.filter (·.1 != id) },
+          ("ok " ++ recsStr m.recs).trimAscii.toString)
+      | none => (s, "bad-op")
+    | none => (s, "bad-op")
+  | _ => (s, "bad-op")
 
 def step (s : St) (line : String) : St × String :=
   match words line with
@@ -473,6 +557,6 @@ def step (s : St) (line : String) : St × String :=
         | none => (s, "bad-op")
       | none => (s, "bad-op")
     | _, _ => (s, "bad-op")
-  | _ => (s, "bad-op")
+  | ws => stepM s ws
 
 def main : IO Unit := loop step {}
